@@ -1759,6 +1759,8 @@ class MindsDBParser(Parser):
         elif isinstance(p[2], int):
             node.parts.append(str(p[2]))
         elif isinstance(p[2], str):
+            if p[2] == '':
+                raise ParsingException('Empty name in identifier')
             node.parts.append(p[2])
         else:
             node.parts += p[2].parts
